@@ -439,11 +439,12 @@ def fault_strategy(base_bytes):
 def tasks(tier, seed):
     t = []
     bases = QUICK_BASES if tier == "quick" else fixtures.SUPPORTED
-    per = 320 if tier == "quick" else 2000
+    per = 320 if tier == "quick" else 700
     for b in bases:
         t.append(("faults", {"base": b, "n": per, "seed": derive_seed(seed, "c17", b)}))
-        t.append(("member_sweep", {"base": b, "part": 0}))
-        t.append(("member_sweep", {"base": b, "part": 1}))
+        nparts = 2 if tier == "quick" else 4
+        for part in range(nparts):
+            t.append(("member_sweep", {"base": b, "part": part, "nparts": nparts}))
     for k in range(2 if tier == "quick" else 16):
         t.append(("generated", {"n": 2 if tier == "quick" else 8, "per": 60 if tier == "quick" else 300, "seed": derive_seed(seed, "c17g", k)}))
     return t
@@ -464,7 +465,7 @@ def run_task(ctx, lane, **kw):
         base_bytes = load_base({"base": kw["base"]})
         infos, _ = zip_layout(base_bytes)
         for name in [i[0] for i in infos if i[0].endswith((".iwa", ".plist"))]:
-            for mkind in MEMBER_FAULTS[kw.get("part", 0)::2] if "part" in kw else MEMBER_FAULTS:
+            for mkind in MEMBER_FAULTS[kw.get("part", 0)::kw.get("nparts", 2)] if "part" in kw else MEMBER_FAULTS:
                 f = {"kind": "member", "mkind": mkind, "member": name, "salt": 3, "n": 2, "keep": False, "at": 17, "delta": 0, "value": 1, "how": "plus"}
                 if name.endswith(".plist") and mkind not in ("empty", "garble", "short", "truncate"):
                     continue
